@@ -88,6 +88,7 @@ sorted_view_(nullptr)
 template<typename T, typename C, typename A>
 quantiles_sketch<T, C, A>& quantiles_sketch<T, C, A>::operator=(const quantiles_sketch& other) {
   quantiles_sketch<T, C, A> copy(other);
+  reset_sorted_view(); // release the cached view through the allocator that allocated it
   std::swap(comparator_, copy.comparator_);
   std::swap(allocator_, copy.allocator_);
   std::swap(is_base_buffer_sorted_, copy.is_base_buffer_sorted_);
@@ -98,12 +99,12 @@ quantiles_sketch<T, C, A>& quantiles_sketch<T, C, A>::operator=(const quantiles_
   std::swap(levels_, copy.levels_);
   std::swap(min_item_, copy.min_item_);
   std::swap(max_item_, copy.max_item_);
-  reset_sorted_view();
   return *this;
 }
 
 template<typename T, typename C, typename A>
 quantiles_sketch<T, C, A>& quantiles_sketch<T, C, A>::operator=(quantiles_sketch&& other) noexcept {
+  reset_sorted_view(); // release the cached view through the allocator that allocated it
   std::swap(comparator_, other.comparator_);
   std::swap(allocator_, other.allocator_);
   std::swap(is_base_buffer_sorted_, other.is_base_buffer_sorted_);
@@ -114,7 +115,6 @@ quantiles_sketch<T, C, A>& quantiles_sketch<T, C, A>::operator=(quantiles_sketch
   std::swap(levels_, other.levels_);
   std::swap(min_item_, other.min_item_);
   std::swap(max_item_, other.max_item_);
-  reset_sorted_view();
   return *this;
 }
 
